@@ -734,6 +734,10 @@ package builder
 //@ #endif
 //@   ensures [ctx] Ctx0(p) && StateOK(p)
 //@   loop#1 invariant [ctx] Ctx0(p) && StateOK(p)
+//@ #if dbg
+//@   ensures [no-opts C16] len(opts) == 0 ==> p.Stats == old(p.Stats)
+//@   loop#1 invariant [no-opts C16] idx1 == 0 ==> p.Stats == old(p.Stats)
+//@ #endif
 //@   safety C11
 //@   frame C18
 
@@ -759,6 +763,9 @@ package builder
 //@   ensures [fresh C18] fresh(p) && fresh(p.errs) && fresh(p.cur.globalStore)
 //@   ensures [init C01 C18] FreshP(p) && p.data == b && p.filename == filename
 //@   ensures [budget C16] p.maxExprCnt > 0
+// the count starts at zero, so that "at most n expressions" is about THIS parse (C16; not when the Statistics
+// option installs a Stats object that was used before: known finding F22)
+//@   ensures [budget-from-zero C16] p.ExprCnt == 0
 //@   safety C11
 //@   frame C18
 
@@ -779,6 +786,9 @@ package builder
 //@   requires [fresh] FreshP(p) && gr == g
 //@   modifies PS, p.rules
 //@   panics [propagates-only-without-recover C11] !p.recover
+// an exhausted budget is REPORTED (C16: "under every combination of the other runtime options"); with Recover(false)
+// it escapes as a panic instead: known finding F21
+//@   panics [budget-is-an-error C16] panicval != errMaxExprCnt
 //@   ensures [typed C11] err != nil ==> is(err, "errList") && len(as(err, "errList")) > 0 && forall k int :: {as(err, "errList")[k]} 0 <= k && k < len(as(err, "errList")) ==> is(as(err, "errList")[k], "*parserError")
 //@   ensures [errs-iff C11 C17] (err == nil) == (len(*p.errs) == 0)
 //@   ensures [panic-is-error C11 C16 local] p.recover && e != nil ==> val == nil && err != nil
